@@ -507,7 +507,8 @@ def show(
 
 
 def _colored_diff_lines(diff: str) -> typ.Iterable[str]:
-    for line in diff.splitlines():
+    # NOTE: str.splitlines would also split at characters that are part of a line (form feed, ...)
+    for line in diff.split("\n"):
         if line.startswith("+++") or line.startswith("---"):
             yield line
         elif line.startswith("+"):
